@@ -165,7 +165,22 @@ def c15(pid, tier, replay):
                                              digest="%s|%s" % (rr["grammar_out"].get("digest"), rr.get("lexer_out", {}).get("digest")),
                                              diff="generated parser|generated lexer")) + "\n")
         shutil_rm(os.path.join(gd, "g%d" % gi))
-    res.notes["generated_module_pairs"] = len(mods)
+    # a lexer on its own with a user-supplied id map in which several names share an id
+    lmap = dict(a=0, b=0, q=0, v=1, x=1, y=1, z=2, w=2)
+    for k in range(6 if thorough else 4):
+        d = os.path.join(gd, "lexmap")
+        shutil_rm(d)
+        os.makedirs(d)
+        open(os.path.join(d, "g.y"), "w").write(p_ct.G["g1"])
+        open(os.path.join(d, "l.l"), "w").write(LNAMED)
+        rr = p_ct.ctstep(d, None, "lexer", dict(yacckind="original_generic"), rule_ids_map=lmap)
+        if k == 0 and rr.get("ok"):
+            built_ok += 1
+        gen_lines.append(json.dumps(dict(ev="built", id="generated-lexer-shared-ids", width=0, proc=k,
+                                         digest="%s|%s" % ("", rr.get("lexer_out", {}).get("digest")),
+                                         diff="-|generated lexer")) + "\n")
+    shutil_rm(os.path.join(gd, "lexmap"))
+    res.notes["generated_module_pairs"] = len(mods) + 1
     res.notes["generated_module_pairs_built"] = built_ok
     if built_ok < 6:
         raise core.ToolError("too few generated modules were actually built (%d)" % built_ok)
